@@ -467,6 +467,18 @@ func init() {
 	reg("C13-R8", "a page written under a pin is unpinned dirty: when a call that certainly writes page bytes (SetNextPageID, Init, ApplyDelete, …) was made through a pinned page, the matching UnpinPage does not pass the constant isDirty=false (tracked while the page stays in one variable)", func(w *World, r *Report) {
 		pinRule(w, r, nil, 15, 25, "modified-page-unpinned-clean")
 	})
+	reg("C13-R8/heap", "C13-R8 restricted to the table-heap layer (storage/access, recovery, catalog, samehada start-up): table rows, catalog rows and next-page links reach the disk", func(w *World, r *Report) {
+		pinRule(w, r, func(fn *ssa.Function) bool {
+			p := fn.Pkg.Pkg.Path()
+			return p == libMod+"/storage/access" || p == libMod+"/recovery/log_recovery" || p == libMod+"/catalog" || p == libMod+"/samehada"
+		}, 8, 12, "modified-page-unpinned-clean")
+	})
+	reg("C13-R8/index", "C13-R8 restricted to the index containers that keep their pages across a clean restart (container/hash)", func(w *World, r *Report) {
+		pinRule(w, r, func(fn *ssa.Function) bool {
+			p := fn.Pkg.Pkg.Path()
+			return strings.HasPrefix(p, libMod+"/container/") || p == libMod+"/storage/index"
+		}, 3, 4, "modified-page-unpinned-clean")
+	})
 	reg("C14-R1/recovery", "pin pairing on the restart path (a pin leaked by recovery exhausts a small pool and restart fails): the functions of recovery/log_recovery, the catalog reload and the samehada start-up / index reconstruction functions", func(w *World, r *Report) {
 		pinRule(w, r, func(fn *ssa.Function) bool {
 			p := fn.Pkg.Pkg.Path()
